@@ -287,6 +287,29 @@ impl Prop for Ctors {
             };
             args.push(v);
         }
+        // setters: the argument in relation to the value the field has now (+- a few), and - for Time
+        // receivers west of Greenwich - the argument that makes the new local time plus the offset
+        // exactly 24:00
+        if api >= 9 && args.len() == 1 {
+            let lt = tl::fields(if api == 11 { (recv.ns as i128 + off as i128 * tl::NS).rem_euclid(DAYNS) } else { recv.i() + off as i128 * tl::NS });
+            let idx = if api == 11 { field as usize + 4 } else { field as usize };
+            let cur: i64 = [lt.year, lt.month as i64, lt.dom as i64, cal::day_of_year(lt.day) as i64, lt.hour as i64, lt.minute as i64, lt.second as i64, (lt.subsec / 1_000_000) as i64, (lt.subsec / 1_000) as i64, lt.subsec as i64][idx.min(9)];
+            if u.coin(1, 6)? {
+                args[0] = cur + u.range_i64(-8, 8)?;
+                if idx != 0 {
+                    args[0] = args[0].max(0);
+                }
+            } else if api == 11 && field <= 2 && off < 0 && u.coin(1, 3)? {
+                // target local time T = 24:00 - |off|; the receiver shows T except in the field being set
+                let t = 86_400 + off as i64; // seconds
+                let want = [t / 3600, t / 60 % 60, t % 60][field as usize];
+                let mut parts = [t / 3600, t / 60 % 60, t % 60];
+                parts[field as usize] = u.range_i64(0, if field == 0 { 23 } else { 59 })?;
+                let local = (parts[0] * 3600 + parts[1] * 60 + parts[2]) * 1_000_000_000;
+                c.recv.ns = (local - off as i64 * 1_000_000_000).rem_euclid(86_400_000_000_000);
+                args[0] = want;
+            }
+        }
         c.args = args;
         Ok(c)
     }
